@@ -232,6 +232,8 @@ def coarsen_model(coll, k, columns=None, agg=None, dtypes=None):
     new = Coll(coll.chromnames, coll.lengths, frame, pixel_frame(out, dts) if ok else
                pixel_frame({"bin1_id": [], "bin2_id": [], **{c: [] for c in columns}}, dts),
                coll.symmetric)
+    if getattr(coll, "dtype_alternatives", None) and not dtypes:
+        new.dtype_alternatives = {c: set(v) for c, v in coll.dtype_alternatives.items() if c in columns}
     new.approx_cols = {c for c in columns if str((agg or {}).get(c, "")).startswith("np.")} | \
         (set(getattr(coll, "approx_cols", ())) & set(columns))
     return new, ok
